@@ -24,6 +24,7 @@ package respondent
 //@ func (*context).close
 //@   holds c.s.Mutex
 //@ func (*pipe).receiver
+//@   before call:Unlock#1 assert held(s.Mutex) && ttl == s.ttl
 //@   ghost body0 = result.Body at call:RecvMsg#1
 //@   ghost hdr0 = result.Header at call:RecvMsg#1
 //@   loop 2 invariant hops >= 0
@@ -35,8 +36,8 @@ package respondent
 //@   loop 2 invariant len(m.Header) == len(hdr0) + 4*hops
 //@   loop 2 invariant forall(j, 0, 4*hops, m.Header[len(hdr0)+j] == body0[j])
 //@   at select#1 assert selidx == 1 ==> len(m.Header) == len(hdr0) + 4*hops && forall(j, 0, 4*hops, m.Header[len(hdr0)+j] == body0[j])
-//@   at select#1 assert selidx == 1 ==> hops >= 1 && hops <= at("loop3:entry", s.ttl) && 4*hops <= len(body0) && body0[4*(hops-1)] >= 128 && forall(j, 0, hops-1, body0[4*j] < 128)
-//@   at call:Free#1 assert forall(j, 0, hops, body0[4*j] < 128) && hops >= s.ttl
+//@   at select#1 assert selidx == 1 ==> hops >= 1 && hops <= ttl && 4*hops <= len(body0) && body0[4*(hops-1)] >= 128 && forall(j, 0, hops-1, body0[4*j] < 128)
+//@   at call:Free#1 assert forall(j, 0, hops, body0[4*j] < 128) && hops >= ttl
 //@   at call:Free#2 assert forall(j, 0, hops-1, body0[4*j] < 128) && len(body0) < 4*hops
 //@
 //@ func (*context).RecvMsg
